@@ -145,9 +145,13 @@ pub fn pick_rate(rng: &mut Rng, i: usize) -> u32 {
 /// in-situ correspondence of the link and transport models and the C04/C08/C13 oracles.
 pub fn run_c01(ctx: &Ctx) {
     let mut out = Out::create(&ctx.out_dir, "sigc01");
-    let mut rng = Rng::new(ctx.seed ^ 0xC01);
+    let _suite_name = "sigc01";
     let n = if ctx.tier_thorough { 4000 } else { 160 };
     for i in 0..n {
+        if !ctx.want(i) {
+            continue;
+        }
+        let mut rng = case_rng(ctx.seed, 0xC01, i);
         let rate = pick_rate(&mut rng, i);
         let lg = gen_line(&mut rng, rate);
         let hdr = if i % 16 == 0 { gen_header(&mut rng, 31, 8) } else { gen_header_any(&mut rng) };
@@ -159,9 +163,10 @@ pub fn run_c01(ctx: &Ctx) {
         };
         let cfg = if rng.chance(1, 2) { Cfg::Default } else { Cfg::Samedec };
         let a = transmission(lg.line.clone(), &mut rng, &h, lg.lead_in, lg.pause, voice_gap, 7, 7, 2.2);
+        ctx.dump("sigc01", i, &a.samples);
         let mut r = build(cfg, rate);
         let (evs, taps) = run_tapped(&mut r, &a.samples);
-        let label = format!("{} cfg={:?} pause={:.3} lead={:.2} gap={:.2} len={}", lg.line.describe(), cfg, lg.pause, lg.lead_in, voice_gap, h.len());
+        let label = format!("{} cfg={:?} pause={:.3} lead={:.2} gap={:.2} len={} case={}", lg.line.describe(), cfg, lg.pause, lg.lead_in, voice_gap, h.len(), i);
         // in-situ correspondence
         let (op, imp) = link_op(&taps);
         out.op(&op, &imp, true);
@@ -234,13 +239,17 @@ fn programme(a: &mut Audio, rng: &mut Rng, secs: f64) {
 /// Suite `signear`: audio with no (complete) SAME transmission — the near-miss library of C04.
 pub fn run_near(ctx: &Ctx) {
     let mut out = Out::create(&ctx.out_dir, "signear");
-    let mut rng = Rng::new(ctx.seed ^ 0xC04);
+    let _suite_name = "signear";
     let n = if ctx.tier_thorough { 3000 } else { 150 };
     let kinds = [
         "silence", "noise", "tone_mark", "tone_space", "tone_other", "programme", "fsk_1200", "fsk_300", "fsk_520_no_preamble",
         "preamble_only", "lone_header", "lone_header_noisy", "disagreeing_pair", "prefix_errors", "header_then_other_header", "lone_trailer_after_header",
     ];
     for i in 0..n {
+        if !ctx.want(i) {
+            continue;
+        }
+        let mut rng = case_rng(ctx.seed, 0xC04, i);
         let rate = pick_rate(&mut rng, i);
         let mut lg = gen_line(&mut rng, rate);
         let kind = kinds[i % kinds.len()];
@@ -325,7 +334,8 @@ pub fn run_near(ctx: &Ctx) {
         let cfg = if rng.chance(1, 2) { Cfg::Default } else { Cfg::Samedec };
         let mut r = build(cfg, rate);
         let (evs, taps) = run_tapped(&mut r, &a.samples);
-        let label = format!("{} cfg={:?} kind={}", lg.line.describe(), cfg, kind).replace(' ', ";");
+        ctx.dump("signear", i, &a.samples);
+        let label = format!("{} cfg={:?} kind={} case={}", lg.line.describe(), cfg, kind, i).replace(' ', ";");
         let (op, imp) = link_op(&taps);
         out.op(&op, &imp, true);
         let (op, imp) = rx_op(rate, &taps, &evs);
@@ -345,9 +355,9 @@ pub fn run_near(ctx: &Ctx) {
 /// Suite `sigmask`: all 64 burst-presence masks at signal level (C02; also C04/C05/C08 traces).
 pub fn run_mask(ctx: &Ctx) {
     let mut out = Out::create(&ctx.out_dir, "sigmask");
-    let mut rng = Rng::new(ctx.seed ^ 0xC02);
     let rates: Vec<u32> = if ctx.tier_thorough { vec![8000, 11025, 22050, 44100, 48000] } else { vec![22050] };
     let gaps: Vec<f64> = if ctx.tier_thorough { vec![1.0, 1.2, 1.5, 3.0, 12.5] } else { vec![1.0, 3.0] };
+    let mut idx = 0usize;
     for &rate in &rates {
         for &gap in &gaps {
             for hm in 0..8u8 {
@@ -355,14 +365,21 @@ pub fn run_mask(ctx: &Ctx) {
                     if !ctx.tier_thorough && gap > 2.0 && (hm + tm) % 2 == 1 {
                         continue;
                     }
+                    idx += 1;
+                    let i = idx;
+                    if !ctx.want(i) {
+                        continue;
+                    }
+                    let mut rng = case_rng(ctx.seed, 0xC02, i);
                     let mut lg = gen_line(&mut rng, rate);
                     lg.line.noise_rel = 0.0;
                     let (nl, cl) = (rng.range(1, 6) as usize, rng.range(3, 8) as usize);
                     let h = gen_header(&mut rng, nl, cl).text().into_bytes();
                     let a = transmission(lg.line.clone(), &mut rng, &h, 0.5 + lg.lead_in / 2.0, lg.pause, gap, hm, tm, 2.5);
+                    ctx.dump("sigmask", i, &a.samples);
                     let mut r = build(Cfg::Samedec, rate);
                     let (evs, taps) = run_tapped(&mut r, &a.samples);
-                    let label = format!("sigmask.hm{:03b}.tm{:03b}.gap{:.2}.rate{}.pause{:.3}", hm, tm, gap, rate, lg.pause);
+                    let label = format!("sigmask.hm{:03b}.tm{:03b}.gap{:.2}.rate{}.pause{:.3}.case={}", hm, tm, gap, rate, lg.pause, i);
                     let (op, imp) = link_op(&taps);
                     out.op(&op, &imp, true);
                     let (op, imp) = rx_op(rate, &taps, &evs);
@@ -391,16 +408,20 @@ pub fn run_mask(ctx: &Ctx) {
 /// Suite `sigchunk`: the same stream under many partitions into bindings and call schedules.
 pub fn run_chunk(ctx: &Ctx) {
     let mut out = Out::create(&ctx.out_dir, "sigchunk");
-    let mut rng = Rng::new(ctx.seed ^ 0xC13);
     let n_streams = if ctx.tier_thorough { 60 } else { 6 };
     let n_sched = if ctx.tier_thorough { 160 } else { 34 };
     for i in 0..n_streams {
+        if !ctx.want(i) {
+            continue;
+        }
+        let mut rng = case_rng(ctx.seed, 0xC13, i);
         let rate = *rng.pick(&[8000u32, 11025, 22050, 22050, 44100]);
         let mut lg = gen_line(&mut rng, rate);
         lg.line.noise_rel = if i % 2 == 0 { 0.0 } else { 0.03 };
         let h = gen_header_any(&mut rng).text().into_bytes();
         let a = transmission(lg.line.clone(), &mut rng, &h, 0.3, lg.pause, 1.5, 7, 7, 1.8);
         let n = a.samples.len();
+        ctx.dump("sigchunk", i, &a.samples);
         // reference: one binding
         let mut r0 = build(Cfg::Samedec, rate);
         let reference: Vec<SameReceiverEvent> = r0.iter_events(a.samples.iter().copied()).collect();
@@ -550,14 +571,20 @@ fn msgs_str(ms: &[sameold::Message]) -> String {
 /// Suite `sigflush`: audio cut at/after the last sample of the final burst, then flush() until None.
 pub fn run_flush(ctx: &Ctx) {
     let mut out = Out::create(&ctx.out_dir, "sigflush");
-    let mut rng = Rng::new(ctx.seed ^ 0xC14);
     let rates: Vec<u32> = if ctx.tier_thorough { STD_RATES.to_vec() } else { vec![8000, 22050, 48000] };
     let n_offsets = if ctx.tier_thorough { 50 } else { 7 };
+    let mut idx = 0usize;
     for &rate in &rates {
         for kind in ["header3", "header2", "full3", "full2", "long_header3", "two_pending"] {
             if kind == "two_pending" && rate > 22050 && !ctx.tier_thorough {
                 continue; // 140 s of audio per case
             }
+            idx += 1;
+            let i = idx;
+            if !ctx.want(i) {
+                continue;
+            }
+            let mut rng = case_rng(ctx.seed, 0xC14, i);
             let mut lg = gen_line(&mut rng, rate);
             lg.line.noise_rel = 0.0;
             lg.line.baud_err = 0.0;
@@ -600,6 +627,7 @@ pub fn run_flush(ctx: &Ctx) {
             let end = a.samples.len();
             // generous tail so that later cut points exist
             a.silence(2.5, &mut rng);
+            ctx.dump("sigflush", i, &a.samples);
             for oi in 0..n_offsets {
                 // cut points from the last sample of the final burst onward: 0, a few samples, fractions of the hold, beyond it
                 let off = match oi {
@@ -628,7 +656,7 @@ pub fn run_flush(ctx: &Ctx) {
                 // a further flush after None must again be None
                 let again = r.flush().is_none();
                 let taps = sameold::verif::taps_take();
-                let label = format!("sigflush.{}.rate{}.off{}", kind, rate, off);
+                let label = format!("sigflush.{}.rate{}.case={}.cut{}.off{}", kind, rate, i, cut, off);
                 let (op, imp) = link_op(&taps);
                 out.op(&op, &imp, true);
                 // reference: what continued silence would have delivered (one binding, no flush())
@@ -671,12 +699,16 @@ pub fn run_flush(ctx: &Ctx) {
 /// Suite `siglong`: a header followed by >= 140 s of other audio.
 pub fn run_long(ctx: &Ctx) {
     let mut out = Out::create(&ctx.out_dir, "siglong");
-    let mut rng = Rng::new(ctx.seed ^ 0xC09);
+    let _suite_name = "siglong";
     let kinds = [
         "silence", "noise", "tone_mark", "programme", "repeated_preambles", "valid_char_carrier", "further_header", "trailer_late", "fsk_garbage_carrier", "preamble_forever", "lone_bursts", "valid_char_bursts",
     ];
     let n = if ctx.tier_thorough { 120 } else { kinds.len() };
     for i in 0..n {
+        if !ctx.want(i) {
+            continue;
+        }
+        let mut rng = case_rng(ctx.seed, 0xC09, i);
         let kind = kinds[i % kinds.len()];
         let rate = if ctx.tier_thorough { pick_rate(&mut rng, i) } else { *rng.pick(&[8000u32, 11025, 22050]) };
         let mut lg = gen_line(&mut rng, rate);
@@ -763,7 +795,8 @@ pub fn run_long(ctx: &Ctx) {
         a.silence(3.0, &mut rng);
         let mut r = build(Cfg::Samedec, rate);
         let (evs, taps) = run_tapped(&mut r, &a.samples);
-        let label = format!("siglong.{}.rate{}", kind, rate);
+        ctx.dump("siglong", i, &a.samples);
+        let label = format!("siglong.{}.rate{}.case={}", kind, rate, i);
         let (op, imp) = link_op(&taps);
         out.op(&op, &imp, true);
         let (op, imp) = rx_op(rate, &taps, &evs);
@@ -818,9 +851,13 @@ fn first_diff(a: &str, b: &str) -> String {
 /// Suite `sigreset`: reset() swept through every phase of a transmission, then compared with a fresh receiver.
 pub fn run_reset(ctx: &Ctx) {
     let mut out = Out::create(&ctx.out_dir, "sigreset");
-    let mut rng = Rng::new(ctx.seed ^ 0xC18);
+    let _suite_name = "sigreset";
     let n = if ctx.tier_thorough { 600 } else { 48 };
     for i in 0..n {
+        if !ctx.want(i) {
+            continue;
+        }
+        let mut rng = case_rng(ctx.seed, 0xC18, i);
         let rate = *rng.pick(&[8000u32, 22050, 22050, 44100]);
         let cfg = if i % 3 == 0 { Cfg::Default } else { Cfg::Samedec };
         let mut lg = gen_line(&mut rng, rate);
@@ -847,7 +884,7 @@ pub fn run_reset(ctx: &Ctx) {
         let _ = run_plain(&mut r, &prefix.samples[..p]);
         r.reset();
         let fresh = build(cfg, rate);
-        let label = format!("sigreset.phase{}.rate{}.cfg{:?}.p{}", phase, rate, cfg, p);
+        let label = format!("sigreset.phase{}.rate{}.cfg{:?}.p{}.case={}", phase, rate, cfg, p, i);
         out.spec(&format!("spec.c18.state [{}] => {}", label, first_diff(&masked_debug(&r), &masked_debug(&fresh))));
         // subsequent stream: a clean or impaired transmission starting 0..0.3 s after the reset
         let mut lg2 = gen_line(&mut rng, rate);
@@ -1030,9 +1067,13 @@ pub fn corner3(seed: u64) {
 /// Suite `sighostile`: hostile prefixes in random order, then >= 1 s of quiet and a C01 transmission.
 pub fn run_hostile(ctx: &Ctx) {
     let mut out = Out::create(&ctx.out_dir, "sighostile");
-    let mut rng = Rng::new(ctx.seed ^ 0xC10);
+    let _suite_name = "sighostile";
     let n = if ctx.tier_thorough { 1500 } else { 60 };
     for i in 0..n {
+        if !ctx.want(i) {
+            continue;
+        }
+        let mut rng = case_rng(ctx.seed, 0xC10, i);
         let rate = pick_rate(&mut rng, i);
         let lg = gen_line(&mut rng, rate);
         let mut a = Audio::new(lg.line.clone());
@@ -1081,6 +1122,7 @@ pub fn run_hostile(ctx: &Ctx) {
         let cfg = if rng.chance(1, 2) { Cfg::Default } else { Cfg::Samedec };
         let label = format!("{} cfg={:?} case={} txamp={:.0} prefix={}", lg.line.describe(), cfg, i, a.line.amplitude, kinds.join("+")).replace(' ', ";");
         let samples = a.samples.clone();
+        ctx.dump("sighostile", i, &samples);
         if let Ok(only) = std::env::var("HOSTILE_ONLY") {
             if only != i.to_string() {
                 continue;
@@ -1137,9 +1179,13 @@ pub fn run_hostile(ctx: &Ctx) {
 /// other 1 s .. 11.5 s apart, ending in silence.
 pub fn run_seq(ctx: &Ctx) {
     let mut out = Out::create(&ctx.out_dir, "sigseq");
-    let mut rng = Rng::new(ctx.seed ^ 0x5E9);
+    let _suite_name = "sigseq";
     let n = if ctx.tier_thorough { 1200 } else { 48 };
     for i in 0..n {
+        if !ctx.want(i) {
+            continue;
+        }
+        let mut rng = case_rng(ctx.seed, 0x5E9, i);
         let rate = if ctx.tier_thorough { pick_rate(&mut rng, i).min(48000) } else { *rng.pick(&[11025u32, 22050]) };
         let mut lg = gen_line(&mut rng, rate);
         lg.line.noise_rel = 0.0;
@@ -1154,7 +1200,7 @@ pub fn run_seq(ctx: &Ctx) {
         a.silence(0.4, &mut rng);
         let mut txs: Vec<String> = vec![];
         let mut spans: Vec<String> = vec![];
-        let mut label = format!("sigseq.rate{}", rate);
+        let mut label = format!("sigseq.case={}.rate{}", i, rate);
         for t in 0..ntx {
             let kind = if t == 0 { rng.below(2) } else { rng.below(3) }; // 0 = A, 1 = B, 2 = trailer
             let payload: Vec<u8> = match kind {
@@ -1184,6 +1230,7 @@ pub fn run_seq(ctx: &Ctx) {
             }
         }
         a.silence(3.0, &mut rng);
+        ctx.dump("sigseq", i, &a.samples);
         let mut r = build(Cfg::Samedec, rate);
         let (evs, taps) = run_tapped(&mut r, &a.samples);
         let (op, imp) = link_op(&taps);
@@ -1207,9 +1254,13 @@ pub fn run_seq(ctx: &Ctx) {
 /// preamble-like bytes followed by a slip of 1..7 bits, alternating bits) and sub-symbol offsets.
 pub fn run_phase(ctx: &Ctx) {
     let mut out = Out::create(&ctx.out_dir, "sigphase");
-    let mut rng = Rng::new(ctx.seed ^ 0xC07);
+    let _suite_name = "sigphase";
     let n = if ctx.tier_thorough { 3000 } else { 160 };
     for i in 0..n {
+        if !ctx.want(i) {
+            continue;
+        }
+        let mut rng = case_rng(ctx.seed, 0xC07, i);
         let rate = if ctx.tier_thorough { pick_rate(&mut rng, i) } else { *rng.pick(&[8000u32, 11025, 22050, 44100]) };
         let mut lg = gen_line(&mut rng, rate);
         lg.line.noise_rel = 0.0;
@@ -1270,7 +1321,8 @@ pub fn run_phase(ctx: &Ctx) {
         a.silence(1.0, &mut rng);
         let mut r = build(Cfg::Samedec, rate);
         let (evs, taps) = run_tapped(&mut r, &a.samples);
-        let label = format!("sigphase.rate{}.half{}.{}", rate, half_syms, lead);
+        ctx.dump("sigphase", i, &a.samples);
+        let label = format!("sigphase.case={}.rate{}.half{}.{}", i, rate, half_syms, lead);
         let (op, imp) = link_op(&taps);
         out.op(&op, &imp, true);
         let evline = show_events(&evs);
